@@ -38,6 +38,11 @@ func execLine(line string) string {
 			return execGen15(t[1:])
 		case "rpc":
 			return execRPC(t[1:])
+		case "rpcgen":
+			if len(t) != 3 || t[1] != "sched" {
+				return "bad-op"
+			}
+			return execImportGen(t[2])
 		case "embargo":
 			if len(t) != 3 || t[1] != "sched" {
 				return "bad-op"
